@@ -307,6 +307,14 @@ defaults { egress { https_only off
 				body = body[:70000] // keep the 2 MiB case to a few messages
 			}
 			hs := genHeaders(r)
+			if route == "/f" && r.Chance(0.5) {
+				// sender-supplied headers under the names the auth service answers with
+				// (any spelling): the copied forward-auth value is what must be stored
+				for n := r.Range(1, 2); n > 0; n-- {
+					hs = append(hs, wireHeader{Name: vlib.Pick(r, []string{"X-User-Id", "x-user-id", "X-USER-ID", "X-Org", "x-org", "X-oRG"}), Value: vlib.Pick(r, []string{"attacker", "u-1", "", "o9,o8"})})
+				}
+				vlib.Shuffle(r, hs)
+			}
 			marker := fmt.Sprintf("mk-%d-%d", ci, k)
 			hs = append(hs, wireHeader{"X-Verif-Marker", marker})
 			if route == "/d" {
